@@ -56,7 +56,7 @@ func c02InitPool() {
 		for k := 1; k <= c02Pool; k++ {
 			var s [rhp2.SectorSize]byte
 			rng := rand.New(rand.NewSource(int64(k) * 7919))
-			rng.Read(s[:1 << 16]) // random head, constant tail: distinct roots, cheap to make
+			rng.Read(s[:1<<16]) // random head, constant tail: distinct roots, cheap to make
 			s[rhp2.SectorSize-1] = byte(k)
 			c02Sectors[k] = &s
 			c02RootsOf[k] = rhp2.SectorRoot(&s) // the real Merkle root
@@ -252,10 +252,10 @@ type c02World struct {
 	vm    *storage.VolumeManager
 	files map[int64]*c02File
 
-	failRead, failWrite int // fail the next read / write of any volume file when 1
-	failSync            int // fail the next fsync issued by VolumeManager.Sync when 1
-	stall               *c02Stall       // stall the next fsync issued by VolumeManager.Sync
-	syncThreads         map[int64]int   // goroutine id -> model thread of the VolumeManager.Sync it runs
+	failRead, failWrite int           // fail the next read / write of any volume file when 1
+	failSync            int           // fail the next fsync issued by VolumeManager.Sync when 1
+	stall               *c02Stall     // stall the next fsync issued by VolumeManager.Sync
+	syncThreads         map[int64]int // goroutine id -> model thread of the VolumeManager.Sync it runs
 	nsync               int
 	stalledRelease      chan struct{} // a stalled Sync that is still in flight
 	stalledDone         chan error
@@ -270,14 +270,15 @@ type c02World struct {
 
 	// finer steps (verif_c02_steps_test.go): steps are recorded for coq/Storage/DataModel.v's xstep,
 	// a RemoveSector in progress is recorded (and can be parked) at its internal steps
-	xmode      bool
-	rs         *c02RS
-	writeLog   []c02WriteEv    // data writes by anybody but the RemoveSector in progress
-	overwritten map[int]bool   // roots whose slot was overwritten by the writer of a removed in-flight upload
-	lastC      int             // content identity returned by the last read (-1: error)
-	staleSize  bool   // a ResizeVolume call was overtaken by another one (classification of monitor hits)
-	lastExists bool   // the last StoreSector call returned nil without calling the StoreFunc
-	heldRoots  map[int]bool
+	xmode       bool
+	rs          *c02RS
+	writeLog    []c02WriteEv // data writes by anybody but the RemoveSector in progress
+	overwritten map[int]bool // roots whose slot was overwritten by the writer of a removed in-flight upload
+	lastC       int          // content identity returned by the last read (-1: error)
+	staleSize   bool         // a ResizeVolume call was overtaken by another one (classification of monitor hits)
+	tempExpired uint64       // highest height ExpireTempSectors was called with, by whichever part of the case
+	lastExists  bool         // the last StoreSector call returned nil without calling the StoreFunc
+	heldRoots   map[int]bool
 
 	// the discipline of the RPC handlers, per root
 	acked     map[int]bool // Write returned nil since the last restart
@@ -1201,6 +1202,9 @@ func (w *c02World) expireTemp(h uint64) {
 	if err := w.st.ExpireTempSectors(h); err != nil {
 		w.fatalf("expire: %v", err)
 	}
+	if h > w.tempExpired {
+		w.tempExpired = h
+	}
 	w.count("op:ExpireTemp")
 }
 
@@ -1425,8 +1429,8 @@ func (w *c02World) directed(id int) bool {
 		w.write(2, false)
 		w.sync()
 		w.addTemp([]int{1, 2}, 10)
-		w.expireTemp(10) // both unreferenced, still on disk
-		w.age()          // ... for longer than a prune interval
+		w.expireTemp(10)  // both unreferenced, still on disk
+		w.age()           // ... for longer than a prune interval
 		w.write(1, false) // "exists": the access time is what protects it now
 		w.prune()         // takes 2, must spare 1
 		w.sync()
@@ -1679,6 +1683,7 @@ func c02RunCase(id int, base string) (res *c02Result) {
 	defer func() {
 		w.st.dead = true
 		w.vm.Close()
+		w.raw.Close() // one connection (3 descriptors) per case otherwise: the thorough tier ran out of them
 		w.db.Close()
 		res.cacheSize = initial
 	}()
